@@ -64,6 +64,8 @@ def quick():
     c.append(Cfg("relation_zero_linked", (DS("ds1", T2, (0.0, 1.0)), DS("ds2", T2, (1.0, 2.0), scale=True)), megacomplexes={"m1": (("s1", "s2", "s3"), True)}, relations=(("s1", "s2", None),), constraints=(("zero", "s3", [(-1.0, 0.5), (1.5, 5.0)]),), groups={"default": (True, VP)}))
     c.append(Cfg("relation_source_zero", (DS("ds1", T2, (0.0, 1.0, 2.0)),), megacomplexes={"m1": (("s1", "s2", "s3"), False)}, relations=(("s1", "s2", (0.5, 5.0)),), constraints=(("zero", "s1", (1.5, 2.5)),), groups={"default": (False, VP)}))
     c.append(Cfg("relation_source_zero_linked", (DS("ds1", T2, (0.0, 1.0, 2.0)), DS("ds2", T2, (2.0, 3.0))), megacomplexes={"m1": (("s1", "s2", "s3"), True)}, relations=(("s1", "s2", None),), constraints=(("only", "s1", (0.0, 1.0)),), groups={"default": (True, VP)}))
+    c.append(Cfg("two_relations_same_target", (DS("ds1", T3, (0.0, 1.0, 2.0, 3.0)),), megacomplexes=M1D, relations=(("s1", "s2", (-1.0, 0.5)), ("s1", "s2", (2.5, 5.0))), groups={"default": (False, VP)}))
+    c.append(Cfg("two_relations_same_target_linked", (DS("ds1", T3, (0.0, 1.0, 2.0)), DS("ds2", T2, (2.0, 3.0), scale=True)), megacomplexes=M1, relations=(("s1", "s2", (-1.0, 0.5)), ("s1", "s2", (2.5, 5.0))), groups={"default": (True, VP)}))
     c.append(Cfg("zero_symbolic_interval", (DS("ds1", T3, (0.0, 1.0)),), megacomplexes=M1D, constraints=(("zero", "s1", "sym"),), groups={"default": (False, VP)}))
     c.append(Cfg("relation_symbolic_interval_linked", (DS("ds1", T3, (0.0, 1.0)),), megacomplexes=M1D, relations=(("s1", "s2", "sym"),), groups={"default": (True, VP)}))
     # penalties
@@ -121,5 +123,24 @@ def thorough():
     return c
 
 
+def dof_lower_bound(cfg):
+    """data points - free parameters - (upper bound of) clps: configurations with dof <= 0 are outside the
+    precondition of C03/C13 (reduced chi-square divides by the degrees of freedom)."""
+    n_data = sum(len(ds.model_axis) * len(ds.global_axis) for ds in cfg.datasets)
+    n_free = sum(int(ds.scale) + (len(ds.megacomplexes) + len(ds.global_megacomplexes)) * int(ds.mc_scales) for ds in cfg.datasets) + len(cfg.relations) + len(cfg.penalties)
+    n_clps = 0
+    for ds in cfg.datasets:
+        labels = {l for m in ds.megacomplexes for l in cfg.megacomplexes[m][0]}
+        if ds.global_megacomplexes:
+            glabels = {l for m in ds.global_megacomplexes for l in cfg.global_megacomplexes[m]}
+            n_clps += len(labels) * len(glabels)
+        else:
+            n_clps += len(labels) * len(ds.global_axis)
+    return n_data - max(n_free, 1) - n_clps
+
+
 def configs(tier):
-    return quick() if tier == "quick" else thorough()
+    out = quick() if tier == "quick" else thorough()
+    # the generated grid is filtered by the (conservative) bound; hand-written configurations are kept and the
+    # contracts check the exact precondition (pipeline.dof_precondition_violated)
+    return [c for c in out if not c.name.startswith(("g2_", "g3_")) or dof_lower_bound(c) >= 1]
